@@ -382,6 +382,9 @@ func grpcAddResponseMeta(contentTypePrefix string, meta responseMeta, headers ht
 
 func grpcWriteEndToTrailers(respEnd *responseEnd, trailers http.Header) {
 	maps.Copy(trailers, respEnd.trailers)
+	// The destination may be the response headers, where the handler can have left
+	// a status of its own: all three keys are replaced, never mixed.
+	trailers.Del("Grpc-Status-Details-Bin")
 	if respEnd.err == nil {
 		trailers.Set("Grpc-Status", "0")
 		trailers.Set("Grpc-Message", "")
